@@ -2,6 +2,7 @@
   C16 — the printed load listing denotes the warrior it was printed from (property theorems).
 -/
 import Gmars.Model.Listing
+import Gmars.Proofs.CliList
 import Gmars.Spec.LoadText
 import Gmars.Proofs.RoundTrip
 
@@ -47,5 +48,24 @@ theorem listing_roundtrip (m : UInt64) (legacy : Bool) (w : WarriorData)
 
 -- boundary cases of the sign threshold
 example : addressSigned 8000 4000 = 4000 ∧ addressSigned 8000 4001 = -3999 ∧ addressSigned 8000 7999 = -1 := by decide
+
+open Cli in
+/-- `cli_A_roundtrip` — the text behind the -A option, end to end: whenever the model of
+    `gmars -A <flags> <files>` prints something, it is, for each file in order, the listing of the
+    warrior the assembler produced under the configuration the flags describe (a preset overrides
+    the other flags) followed by one newline, and each listing, read back with the pMARS listing
+    conventions, denotes exactly that warrior — instructions and entry point. No hypothesis is left
+    to the caller. (`cliAssembleOutput` is validated against the built command on 120 000 runs and
+    tied on every run by the `clilist` domain.) -/
+theorem cli_A_roundtrip {fl : Flags} {files : List (List UInt8)} {out : String}
+    (h : cliAssembleOutput fl files = some out) :
+    ∃ (cfg : Config) (ws : List WarriorData),
+      config fl = some cfg ∧ cfg.validate = true ∧ cfg.coreSize.toNat < 2 ^ 63 ∧
+      ws.length = files.length ∧ 1 ≤ files.length ∧ files.length ≤ 2 ∧
+      (∀ p ∈ files.zip ws, assemble cfg p.1 = .ok p.2) ∧
+      out = String.ofList ((ws.map (fun w => listingOf cfg w ++ ['\n'])).flatten) ∧
+      ∀ w ∈ ws, ∃ t, Spec.readText (listingOf cfg w) = some t ∧
+        Spec.denotes cfg.coreSize.toNat t w.code.toList w.start = true :=
+  Cli.cli_A_roundtrip h
 
 end Gmars.Props.C16
